@@ -1,17 +1,21 @@
 """C11 - a killed process loses no acknowledged direct-mode record and restarts cleanly."""
 import gen_flw as g
 
-CLAIM = ("Decided per explored history and kill point: the first part of each history runs in a child process in which the k-th "
-         "file-system effect (write, rename, create, remove, symlink replacement, gzip create / copy / finish) aborts the process; the "
-         "parent then takes the directory as it is, starts a new logger on it (append on or off), logs on, and checks with an "
-         "executable oracle that (1) the restart and all later operations succeed, (2) every direct-mode record whose log call had "
-         "returned before the kill and every record logged after the restart is in the stream, in order, a tail of it when a cleanup "
-         "limit is configured. The model (Flw/Model.v: every effect consumes one unit of a kill counter, a dead process has no further "
-         "effects) predicts the directory the kill leaves and everything after it (correspondence). Proved in Coq: a dead world is "
-         "not changed by any effect, and before the kill point effects are the fault-free ones (C11_dead_no_effect, C11_kill_point, C11_alive_effect). "
-         "The history-level theorem over all kill points is not finished: partial. Assumption: each file-system call is atomic with "
-         "respect to the kill, and a killed process loses no page-cache data.")
-THEOREMS = ["C11_dead_no_effect", "C11_kill_point", "C11_alive_effect"]
+CLAIM = ('Proved in Coq for the model, Numbers naming, direct mode, EVERY history and EVERY kill point (a kill aborts the '
+         'process at its k-th file-system effect; a dead process has no further effect: C11_dead_no_effect, C11_kill_point, '
+         'C11_alive_effect): what the killed process leaves - r00000.., and rCURRENT if it exists - is exactly the acknowledged '
+         'records in order, also for kills inside a rotation or the initialisation (C11_numbers_kill_keeps_acked); a logger '
+         'started on that directory with any capacity, criterion and append flag succeeds in every operation and ends with '
+         'exactly acknowledged ++ its own records (C11_numbers_kill_restart; bound: first run shorter than 2^32 operations). For '
+         'the other namings, cleanup and compression the property is decided per explored history and kill point: the first part '
+         'of each history runs in a child process in which the k-th file-system effect (write, rename, create, remove, symlink '
+         'replacement, gzip create / copy / finish) aborts the process; the parent starts a new logger on the directory as it is '
+         '(append on or off), logs on, and an executable oracle checks that the restart and all later operations succeed, that '
+         'every acknowledged direct-mode record and every later record is in the stream in order (a tail under a cleanup limit; '
+         'an archive next to its complete original is ignored), and that a configured symlink leads to the file being written; '
+         'the model predicts the directory the kill leaves and everything after it (correspondence): partial. Assumption: each '
+         'file-system call is atomic with respect to the kill, and a killed process loses no page-cache data. ')
+THEOREMS = ["C11_numbers_kill_keeps_acked", "C11_numbers_kill_restart", "C11_dead_no_effect", "C11_kill_point", "C11_alive_effect"]
 TRUSTED = ["assumed: atomicity of single file-system calls under SIGABRT, no loss of written data in the page cache; the kill happens at "
            "the hook point immediately before a call, never inside one"]
 ASSUMPTIONS = ["the virtual clock does not advance within a crash history (file birth times are not carried over to the restarted process)"]
